@@ -31,6 +31,19 @@ theorem isclose_self (rt at' x : K) (h1 : 0 ≤ rt) (h2 : 0 ≤ at') : isclose r
 theorem npRtol_nonneg : (0 : K) ≤ npRtol := by unfold npRtol; positivity
 theorem npAtol_nonneg : (0 : K) ≤ npAtol := by unfold npAtol; positivity
 theorem cijSetSymAtol_nonneg : (0 : K) ≤ cijSetSymAtol := by unfold cijSetSymAtol; positivity
+theorem cijklSetAtol_nonneg : (0 : K) ≤ cijklSetAtol := by unfold cijklSetAtol; positivity
+theorem sijklSetAtol_nonneg : (0 : K) ≤ sijklSetAtol := by unfold sijklSetAtol; positivity
+
+theorem one_le_maxK_one (x : K) : (1 : K) ≤ maxK ((1 : ℕ) : K) x := by
+  unfold maxK; split
+  · rename_i h; simp only [Nat.cast_one] at h; exact le_of_lt h
+  · simp
+
+/-- the (possibly magnitude-scaled) tolerance of the 4-index symmetry assertions is non-negative. -/
+theorem checkAtol_nonneg (rel : Bool) (a : K) (ha : 0 ≤ a) (C : T4 K) : 0 ≤ checkAtol rel a C := by
+  unfold checkAtol; split
+  · exact mul_nonneg ha (le_trans zero_le_one (one_le_maxK_one _))
+  · exact ha
 
 /-! ### `value.max()` -/
 
@@ -112,7 +125,7 @@ theorem setCijkl_cijklGet (c : M6 K) (h : Symm6 c) (hpos : 0 < max6 c) : setCijk
   have hm : 0 < max4 (cijklGet c) := (max4_cijklGet_pos c).mpr hpos
   have hraw : cijklSetRaw (cijklGet c) = c := by
     funext a b; rw [cijklSetRaw_eq, cijklGet_eq, voigt_pairOf, voigt_pairOf]
-  have hchk : checks4 (cijklGet c) cijklSetChecks = true := by
+  have hchk : checks4 (checkAtol cijklSetAtolRel cijklSetAtol (cijklGet c)) (cijklGet c) cijklSetChecks = true := by
     rw [checks4, List.all_eq_true]
     intro pq hpq
     have e : at4 (cijklGet c) pq.1 = at4 (cijklGet c) pq.2 := by
@@ -120,9 +133,32 @@ theorem setCijkl_cijklGet (c : M6 K) (h : Symm6 c) (hpos : 0 < max6 c) : setCijk
       rcases cijkl_set_checks_sound pq hpq with ⟨e1, e2⟩ | ⟨e1, e2⟩
       · rw [e1, e2]
       · rw [e1, e2]; exact h _ _
-    rw [e]; exact isclose_self _ _ _ npRtol_nonneg npAtol_nonneg
+    rw [e]; exact isclose_self _ _ _ npRtol_nonneg (checkAtol_nonneg _ _ cijklSetAtol_nonneg _)
   simp only [setCijkl, Nat.cast_zero, hm, decide_true, Bool.not_true, Bool.and_false, hchk, Bool.false_eq_true,
     if_false, hraw]
+
+/-- `ElasticConstants(Sijkl=ec.Sijkl)` does what `ElasticConstants(Sij=ec.Sij)` does, for every symmetric
+    compliance matrix of any magnitude: all 147 symmetry assertions hold for the getter's output and the weighted
+    6x6 literal gives `Sij` back. -/
+theorem setSijkl_sijklGet (inv : M6 K → Option (M6 K)) (s : M6 K) (h : Symm6 s) :
+    setSijkl inv (sijklGet s) = setSij inv s := by
+  have hraw : sijklSetRaw (sijklGet s) = s := by
+    funext a b
+    rw [sijklSetRaw_eq, sijklGet_eq, voigt_pairOf, voigt_pairOf]
+    have := mult_ne_zero (K := K) a
+    have := mult_ne_zero (K := K) b
+    push_cast; field_simp
+  have hchk : checks4 (checkAtol sijklSetAtolRel sijklSetAtol (sijklGet s)) (sijklGet s) sijklSetChecks = true := by
+    rw [checks4, List.all_eq_true]
+    intro pq hpq
+    have e : at4 (sijklGet s) pq.1 = at4 (sijklGet s) pq.2 := by
+      simp only [at4, sijklGet_eq]
+      rcases sijkl_set_checks_sound pq hpq with ⟨e1, e2⟩ | ⟨e1, e2⟩
+      · rw [e1, e2]
+      · rw [e1, e2, h _ _, Nat.mul_comm]
+    rw [e]; exact isclose_self _ _ _ npRtol_nonneg (checkAtol_nonneg _ _ sijklSetAtol_nonneg _)
+  have hmax : sijklSetMaxAssert = false := rfl
+  simp only [setSijkl, hmax, Bool.false_and, Bool.false_eq_true, if_false, hchk, Bool.not_true, hraw]
 
 /-- `ElasticConstants(Cij9=ec.Cij9)` stores what `ElasticConstants(Cij=ec.Cij)` stores. -/
 theorem setCij9_cij9Get (c : M6 K) (h : Symm6 c) : setCij9 (cij9Get c) = setCij c := by
